@@ -59,7 +59,7 @@ def census(v):
     """terminator counts of v outside disabled regions -> list of admissible count dicts"""
     lines = re.split(rb"(\r\n|\r|\n)", v)
     cnts = []
-    for incl_markers in (True, False):
+    for incl_off, incl_on in ((True, True), (False, False), (True, False), (False, True)):
         c = {"lf": 0, "crlf": 0, "cr": 0}
         off = False
         for i in range(0, len(lines) - 1, 2):
@@ -69,12 +69,12 @@ def census(v):
             k = {b"\n": "lf", b"\r\n": "crlf", b"\r": "cr"}[t]
             if is_off:
                 off = True
-                if incl_markers:
+                if incl_off:
                     c[k] += 1
                 continue
             if is_on:
                 off = False
-                if incl_markers:
+                if incl_on:
                     c[k] += 1
                 continue
             if not off:
